@@ -30,6 +30,9 @@ Qed.
 Lemma persist_schemas_wf : forallb (fun s => tlvs_wf (snd s)) persist_schemas = true.
 Proof. vm_compute. reflexivity. Qed.
 
+Lemma persist_field_pins_ok : forallb pin_ok persist_field_pins = true.
+Proof. vm_compute. reflexivity. Qed.
+
 Lemma persist_roundtrip pk name es vals rest : In (name, es) persist_schemas ->
   tlv_dom pk es vals = true -> len (tlv_enc es vals) < 2 ^ 64 ->
   suffix_dec pk es (suffix_enc es vals ++ rest) = ROk (vals, rest).
